@@ -439,10 +439,20 @@ func c15Pair(rt *rapid.T, v primitive.ProtocolVersion, small bool, label string)
 	if small {
 		o.MaxLongString = 66000
 	}
+	// envelopes that are nothing but a header (OPTIONS - a driver's heartbeat - and READY have an empty body) are a
+	// boundary of every "while bytes remain" loop: drawn on purpose, bare or with generated flags
+	bare := rapid.IntRange(0, 7).Draw(rt, label+"/headerOnly")
 	for {
 		kind, msg := gen.Message(rt, v, o)
-		if kind.Response || kind.Name == "STARTUP" || kind.Name == "AUTH_RESPONSE" || kind.Name == "OPTIONS" {
+		if bare <= 1 {
+			kind, msg = kindNamed(v, "OPTIONS"), &message.Options{}
+		}
+		if kind.Response || kind.Name == "STARTUP" || kind.Name == "AUTH_RESPONSE" {
 			continue
+		}
+		if bare == 0 {
+			req = frame.NewFrame(v, 0, msg)
+			break
 		}
 		fc := gen.FrameOf(rt, v, kind, msg, false)
 		req = fc.Frame
@@ -450,6 +460,10 @@ func c15Pair(rt *rapid.T, v primitive.ProtocolVersion, small bool, label string)
 	}
 	for {
 		kind, msg := gen.Message(rt, v, o)
+		if bare == 2 {
+			resp = frame.NewFrame(v, 0, &message.Ready{})
+			break
+		}
 		if !kind.Response || strings.HasPrefix(kind.Name, "EVENT") || kind.Name == "ERROR/ServerError" || kind.Name == "ERROR/ProtocolError" ||
 			kind.Name == "ERROR/AuthenticationError" || kind.Name == "READY" || kind.Name == "AUTHENTICATE" {
 			continue
@@ -465,6 +479,15 @@ func c15Pair(rt *rapid.T, v primitive.ProtocolVersion, small bool, label string)
 	id := rapid.Int16Range(0, 127).Draw(rt, label+"/stream")
 	req.Header.StreamId, resp.Header.StreamId = id, id
 	return
+}
+
+func kindNamed(v primitive.ProtocolVersion, name string) gen.Kind {
+	for _, k := range gen.KindsFor(v) {
+		if k.Name == name {
+			return k
+		}
+	}
+	panic("no kind " + name)
 }
 
 func c15Property(rt *rapid.T) {
